@@ -466,6 +466,28 @@ func (c15) Run(e *simkit.Env, cc any) {
 					e.Fail("C15/spawn-not-permitted", "%s spawned 'worker' on b@h2 although the history of EnableSpawn/DisableSpawn calls does not enable it for that peer (flags forbid=%v); history: %v", peer, c.NoSpawnB, c.Perms[:i+1])
 					return
 				}
+				if !allowed {
+					// a peer that is not entitled claims to act for one that is: the request names a
+					// process of the other node as the parent (the connection object lets a node
+					// program send any options it likes)
+					other := gen.Atom("a@h1")
+					if peer == other {
+						other = "c@h3"
+					}
+					if fr, ok := remote.(interface {
+						RemoteSpawn(name gen.Atom, options gen.ProcessOptionsExtra) (gen.PID, error)
+					}); ok {
+						fake := gen.PID{Node: other, ID: 1001, Creation: remote.Creation()}
+						_, ferr := fr.RemoteSpawn("worker", gen.ProcessOptionsExtra{ParentPID: fake, ParentLeader: fake})
+						e.Settle(time.Second)
+						e.Logf("perm %d: spawn by %s naming a process of %s as the parent -> %v", i, peer, other, ferr)
+						if ferr == nil {
+							e.Fail("C15/spawn-not-permitted", "%s, for which 'worker' is not enabled, spawned it on b@h2 by naming a process of %s as the parent in its request; history: %v", peer, other, c.Perms[:i+1])
+							return
+						}
+						e.Probe("forged-requester-refused")
+					}
+				}
 				if err == nil {
 					e.Probe("spawn-allowed")
 					emu.Lock()
